@@ -4,6 +4,7 @@ import (
 	"context"
 	"database/sql"
 	"encoding/binary"
+	"encoding/json"
 	"errors"
 	"fmt"
 	"io"
@@ -13,6 +14,7 @@ import (
 	"path/filepath"
 	"sort"
 	"strings"
+	"sync"
 	"time"
 
 	"github.com/benbjohnson/litestream"
@@ -78,6 +80,10 @@ type Event struct {
 	NewRem []LtxObs  `json:"newrem"`
 	FaultsLeft int   `json:"faultsLeft"`
 	Calls  []string  `json:"calls"`
+	HasRead bool     `json:"hasRead"` // litestream's long read transaction is held
+	Open    bool     `json:"open"`    // DB.IsOpen()
+	Handles bool     `json:"handles"` // the DB holds an open SQL handle
+	NDBs    int      `json:"ndbs"`    // databases managed by the Store
 }
 
 type AuditTx struct {
@@ -109,6 +115,10 @@ type Runner struct {
 	gated   any // in-flight step-by-step checkpoint (gate.go)
 	seenRem map[string]bool
 	fc      *faultClient
+	appMu     sync.Mutex
+	freeLogMu sync.Mutex
+	freeLog   [][3]string // hooks reached after a Par block's schedule was exhausted (proc, event, open?)
+	store   any // *litestream.Store once a Par block or a Store-level operation needs one
 	nextRow int
 	ctx     context.Context
 	Hooks   func(r *Runner, ls *litestream.DB) // optional: lets a driver configure a freshly created litestream.DB
@@ -772,7 +782,33 @@ func RunCase(c Case, baseDir string, hooks func(r *Runner, ls *litestream.DB)) (
 	}
 	r.observe(&ev)
 	evs = append(evs, ev)
-	for i, st := range c.Sched {
+	stepNo := 0
+	for _, st := range c.Sched {
+		if argStr(st, 0, "") == "Par" && len(st) > 1 {
+			var spec parSpec
+			if b, err := json.Marshal(st[1]); err == nil && json.Unmarshal(b, &spec) == nil {
+				r.runPar(spec, func(proc, what, res string) {
+					stepNo++
+					ev := blank(c, stepNo)
+					ev.Op, ev.Arg, ev.Res = "ParStep", proc+":"+what, res
+					if what == "end" {
+						ev.Op = "ParEnd"
+						r.lsUp = r.ls != nil && r.ls.IsOpen()
+					}
+					r.observe(&ev)
+					ev.HasRead = r.ls != nil && r.ls.VerifHasReadLock()
+					ev.Open = r.ls != nil && r.ls.IsOpen()
+					ev.Handles = r.ls != nil && r.ls.SQLDB() != nil
+					if st := r.store; st != nil {
+						ev.NDBs = len(st.(*litestream.Store).DBs())
+					}
+					evs = append(evs, ev)
+				})
+			}
+			continue
+		}
+		stepNo++
+		i := stepNo - 1
 		ev := blank(c, i+1)
 		ev.Op = argStr(st, 0, "")
 		ev.Arg = argStr(st, 1, "")
@@ -799,10 +835,13 @@ func RunCase(c Case, baseDir string, hooks func(r *Runner, ls *litestream.DB)) (
 		if ctl != nil && i < len(ctl) {
 			ev.Ctl = ctl[i]
 		}
+		ev.HasRead = r.ls != nil && r.ls.VerifHasReadLock()
+		ev.Open = r.ls != nil && r.ls.IsOpen()
+		ev.Handles = r.ls != nil && r.ls.SQLDB() != nil
 		evs = append(evs, ev)
 	}
 	if c.Cfg.Audit {
-		ev := blank(c, len(c.Sched)+1)
+		ev := blank(c, stepNo+1)
 		ev.Op = "Audit"
 		r.observe(&ev)
 		ev.Audit = r.audit()
